@@ -46,7 +46,10 @@ def run(check, an: Analysis):
     wfn = wrapper.fn
 
     # ---- X ------------------------------------------------------------------
-    allowed = {'__init__', '__close__', 'cancel', wfn.name}
+    # the entry points that may decide a task's outcome, and the private stages split off
+    # them (methods called from nowhere else)
+    allowed = rules.private_closure(an, TASK, {'__init__', '__close__', 'cancel'}) \
+        | {wfn.name}
     for fn, stmt, target, recvs in rules.attribute_stores(an, '_result', TASK):
         ok = (fn.cls is not None and fn.cls.qn == TASK and fn.name in allowed) or fn is wfn
         check.instance('X', 'writer:%s' % short(fn.qn), ok,
@@ -191,13 +194,15 @@ def run(check, an: Analysis):
                         and isinstance(e.node.func, ast.Attribute)
                         and rules.text_at(path, e, e.node.func) == 'self._cancellations.append']
             undated = not any(kw.arg in ('delay', 'at') for kw in call.keywords)
-            target_ok = bool(call.args) and ast.unparse(call.args[0]) == 'self.__runner__'
+            target_ok = bool(call.args) and rules.value_text(
+                path, sched[0], call.args[0]) == 'self.__runner__'
             sig = [kw.value for kw in call.keywords if kw.arg == 'signal'] or call.args[1:2]
-            sig_ok = bool(sig) and bool(made) and isinstance(sig[0], ast.Name) and \
-                any(isinstance(v, ast.Call) and v is made[0].node
-                    for v in rules.local_values(cancel.fn, sig[0].id))
-            args_ok = bool(made) and [ast.unparse(a) for a in made[0].node.args] == \
-                ['self', '*token']
+            sig_ok = bool(sig) and bool(made) and rules.is_source_node(
+                rules.value_expr(path, sched[0], sig[0]), made[0].node)
+            args_ok = bool(made) and [
+                rules.text_at(path, made[0], a) for a in made[0].node.args] == \
+                ['self', '*%s' % cancel.fn.node.args.vararg.arg
+                 if cancel.fn.node.args.vararg else '?']
             ok = bool(appended) and undated and target_ok and sig_ok and args_ok
             seen.add('running')
             check.instance('K', 'cancel:running->scheduled', ok, path.events[sched[0]].where,
